@@ -33,11 +33,11 @@ Grid(bins, ids) == {<<b, i>> : b \in bins, i \in ids}
 
 GPeers == CASE Univ = "depth" -> Grid(0..3, {0, 1, 2, 5, 9})
             [] Univ = "deep"  -> Grid({0, 1}, {0, 1, 2, 5, 9}) \cup Grid({2, 29, 30, 31}, {0, 3, 6, 12, 15})
-            [] Univ = "adm"   -> Grid({0}, 0..7) \cup Grid({1}, 0..3) \cup Grid({2}, 0..1)
+            [] Univ = "adm"   -> Grid({0}, 0..7) \cup Grid({1}, 0..3)
             [] OTHER          -> Grid(0..2, {0, 3, 5, 6, 12, 15}) \cup Grid({30, 31}, {2, 9, 10})
 GBoots == IF Univ = "adm" THEN {<<0, 15>>, <<1, 15>>} ELSE {<<1, 14>>}
-GRadii == {0, 1, 2, 3, 30, 31}
-GProt  == IF Univ = "adm" THEN {{}, {<<0, 6>>}, {<<0, 7>>, <<1, 3>>}} ELSE {{}}
+GRadii == IF Univ = "adm" THEN {0, 31} ELSE {0, 1, 2, 3, 30, 31}
+GProt  == IF Univ = "adm" THEN {{}, {<<0, 7>>, <<1, 3>>}} ELSE {{}}
 \* query targets: addresses of peers (distance zero), neighbours inside a bin, a bin without peers, the deepest bins, self
 GTargets == {<<0, 3>>, <<0, 13>>, <<1, 4>>, <<2, 12>>, <<5, 0>>, <<30, 8>>, <<31, 10>>, <<SelfBin, 0>>}
 GTargetsN == {<<0, 13>>, <<1, 4>>, <<31, 10>>, <<SelfBin, 0>>}
@@ -150,6 +150,19 @@ OpClass(r) == IF "p" \in DOMAIN r
 EdgeViewSym == <<[b \in UBins |-> <<Cnt(conn, b), Cnt(known \ conn, b), Cnt(prot \cap conn, b), Cnt(prot \ conn, b)>>],
                  Cardinality(known \cap Boots), radius, prot = {}, OpClass(res)>>
 EmitAll == hist # <<>> => Scn(hist)
+\* edges from a populated topology: three peers in bin 1 and Prefill peers in bin 0 are connected first, so
+\* that a few more steps reach the over-saturation boundary (5 with BinMaxPeers 5)
+Prefill == atoi(Env("VERIF_PREFILL", "0"))
+PreSet  == IF Prefill = 0 THEN {} ELSE Grid({1}, 0..2) \cup Grid({0}, 0..(Prefill - 1))
+EInit == /\ conn = PreSet /\ known = PreSet /\ pub = {} /\ radius = MaxPO /\ prot = {}
+         /\ selfPub = FALSE /\ stale = FALSE /\ res = [op |-> "init"]
+         /\ depth = Recomputed(PreSet, {}, MaxPO)
+         /\ hist = MapSeq(Desc(PreSet), LAMBDA x : OConn(x, TRUE)) /\ vec = <<>>
+ENext == /\ Len(hist) < Depth + Cardinality(PreSet)
+         /\ GStep
+         /\ hist' = Append(hist, Op(res'))
+         /\ UNCHANGED vec
+ESpec == EInit /\ [][ENext]_<<vars, hist, vec>>
 
 (***************************************************************************)
 (* Vectors (C22, exhaustive): a class <<total, reachable>> per bin.        *)
